@@ -24,7 +24,7 @@ PROP = "C17"
 
 TIERS = {
     "quick": {"sessions": 5, "workers": 3, "single": 36, "multi": 320,
-              "budget_s": None, "worlds": 120, "alternations": 2,
+              "budget_s": None, "worlds": 120, "alternations": 1,
               "alt_rounds": 250},
     "thorough": {"sessions": 400, "workers": 4, "single": 60, "multi": 400,
                  "budget_s": 25 * 60, "worlds": 300, "alternations": 4,
